@@ -604,8 +604,17 @@ fn apply_byte_fault(rng: &mut Rng, kind: &str, files: &mut [(String, Vec<u8>)]) 
             *bytes = chunks.concat().into_bytes();
         }
         "nesting_bomb" => {
-            let depth = *rng.pick(&[8usize, 64, 512, 4096]);
-            let bomb = match rng.below(4) {
+            // Up to a few kilobytes of nesting.
+            let depth = *rng.pick(&[8usize, 64, 200, 400, 800]);
+            let bomb = match rng.below(8) {
+                4 => format!("type Bomb {{ a: {}u8{} }}\n", "*mut [".repeat(depth / 2), "; 1]".repeat(depth / 2)),
+                5 => format!(
+                    "type Bomb {{ vftable {{ fn f(&self, a: {}u8) -> {}u8; }} }}\n",
+                    "*mut ".repeat(depth),
+                    "*const ".repeat(depth)
+                ),
+                6 => format!("#[size({}1{})]\ntype Bomb;\n", "(".repeat(depth), ")".repeat(depth)),
+                7 => format!("{}{}\n", "{".repeat(depth), "}".repeat(depth)),
                 0 => format!(
                     "type Bomb {{ a: {}u8{} }}\n",
                     "[".repeat(depth),
